@@ -698,12 +698,17 @@ def get_table(prog, flags, max_depth):
         except Exception:
             pass
     T.build()
+    # the cache is shared by checks that may run at the same time: write under a private name, publish by rename, and never
+    # touch another process's temporary file; a failure to cache is not a failure of the analysis
     tmp = path + ".tmp%d" % os.getpid()
-    with open(tmp, "wb") as fh:
-        pickle.dump((T.trans, T.stats), fh)
-    os.rename(tmp, path)
+    try:
+        with open(tmp, "wb") as fh:
+            pickle.dump((T.trans, T.stats), fh)
+        os.rename(tmp, path)
+    except OSError:
+        pass
     for f in os.listdir(cdir):
-        if f.startswith("%s-" % prog.variant) and ("-f%d-d%d-" % (flags, max_depth)) in f and f != tag + ".pkl":
+        if f.endswith(".pkl") and f.startswith("%s-" % prog.variant) and ("-f%d-d%d-" % (flags, max_depth)) in f and f != tag + ".pkl":
             try:
                 os.unlink(os.path.join(cdir, f))
             except OSError:
